@@ -25,7 +25,8 @@ def check(R, F, P, cfg):
         for bi, b in enumerate(f.blocks):
             for s in b["stmts"]:
                 if s["k"] == "assign" and s["rv"]["k"] == "agg" and s["rv"].get("adt") == "weak::Weak":
-                    rootf = site_root(P, f)
+                  # a private constructor holding the aggregate is analysed from each function that calls it (expanded there)
+                  for rootf in [F.fn(o) for o in sorted(lift_owner(P, site_root(P, f))) if F.fn(o) is not None]:
                     S = Super(P, rootf, opaque=DO - {rootf.npath})
                     for x in [y for y in S.nodes if y.ctx.fn is f and y.bb == bi]:
                         k += 1
